@@ -250,6 +250,10 @@ def handle (cmd : String) (args : List String) : String :=
     match parseHello toks with
     | some h => "ok " ++ toHex (Fp.Spec.JA3.ja3Spec h)
     | none => "bad-op"
+  | "ja3fpspec", toks =>
+    match parseHello toks with
+    | some h => "ok md5of:" ++ toHex (Fp.Spec.JA3.ja3Spec h)
+    | none => "bad-op"
   | "cap", toks =>
     match kv toks "parts", kv toks "cuts" with
     | some parts, some cuts =>
